@@ -107,6 +107,7 @@ int main(void)
     ABT_task h = (ABT_task)&G;
     r = ABT_task_create((ABT_pool)&POOL, body, &G, nondet_bool() ? &h : NULL);
 #endif
+#if WHICH != 3
     if (r != ABT_SUCCESS) {
         VR_ASSERT(vr_failed || unit_fail || map_fail, "creation fails only if an allocation or the pool's unit creation failed");
         VR_ASSERT(vr_live == 0, "a failed creation leaves no block allocated");
@@ -132,5 +133,6 @@ int main(void)
 #endif
         VR_WITNESS("creation succeeded");
     }
+#endif
     return 0;
 }
